@@ -70,6 +70,15 @@ Theorem C04_label_term_is_its_address :
 Proof. exact label_term_is_its_address. Qed.
 Print Assumptions C04_label_term_is_its_address.
 
+(* a term that is itself label arithmetic - an EQU symbol defined by it: X EQU L+2 ... LDX #L+X - stands for that arithmetic
+   on ITS terms, to any depth, whenever the result is a value the assembler can hold (false upstream: read as 0, repair F56) *)
+Theorem C04_nested_label_term_value :
+  forall ss l op r m a b z,
+    term_value ss l = Ok a -> term_value ss r = Ok b -> arith op a b = Some z -> (z <= 65535)%Z ->
+    term_value ss (VExpr l op r m true) = Ok z.
+Proof. exact nested_term_is_its_value. Qed.
+Print Assumptions C04_nested_label_term_value.
+
 (* (d) at a 16-bit operand position - extended, 16-bit immediate, [extended indirect], FDB - the two operand
    bytes of a label expression are its value modulo 65536, high byte first, when the value lies in
    -32768..65535, and the statement is rejected otherwise: never anything else.
